@@ -98,7 +98,7 @@ package model
 // ---------------------------------------------------------------- C12: diagnostics of the model operations
 
 //@ func contains
-//@   ensures result == exists(i, 0, len(slice), slice[i] == target)
+//@   ensures [C12:D1-contains] result == exists(i, 0, len(slice), slice[i] == target)
 //@   loop 0 invariant forall(i, 0, rangeindex + 1, slice[i] != target)
 
 //@ pred optKnown(name string) := haskey(options, name)
